@@ -83,6 +83,12 @@ func TestVerifC17Dollar(t *testing.T) {
 			wantArgs[i] = vDollarStr(x)
 		}
 		compareArgs := c.Simple || !c.Cmd
+		// A value that itself contains the text of a command ("$(pkg-config --libs c1)") is one symbol of the spec's
+		// alphabet but several words for the flag splitter: how the expanded string is cut into arguments is then
+		// PkgConfigSplit's question, only the expanded string is compared here.
+		if c.Cmd && (strings.Contains(vDollarStr(c.A), "$(") || strings.Contains(vDollarStr(c.B), "$(")) {
+			compareArgs = false
+		}
 		if !compareArgs {
 			r.count("args_not_compared_flag_shape_belongs_to_PkgConfigSplit")
 		}
